@@ -43,3 +43,26 @@ fn d16_more_line_ends_than_fork_ports() {
     ];
     assert_eq!(assign_parent_relationships(&mut devs), Err(Error::Topology));
 }
+
+/// D26: the system-time offset is computed as `-(receive_time as i64) + now as i64`; a latched receive time with the top
+/// bit set (0x0918 is read from the device as 8 raw bytes) overflowed the negation or the sum and panicked before anything
+/// was sent.  Drives the real write_dc_parameters against a PDU loop nobody answers: the call must end in a timeout error,
+/// not in a panic.
+fn d26_run(receive_time: u64, now: u64) -> std::thread::Result<Result<(), Error>> {
+    use crate::{MainDevice, MainDeviceConfig, PduStorage, RetryBehaviour, Timeouts};
+    let storage: &'static PduStorage<2, { PduStorage::element_size(32) }> = Box::leak(Box::new(PduStorage::new()));
+    let (_tx, _rx, pdu_loop) = storage.try_split().unwrap();
+    let timeouts = Timeouts { pdu: core::time::Duration::from_millis(5), ..Timeouts::default() };
+    let md = MainDevice::new(pdu_loop, timeouts, MainDeviceConfig { retry_behaviour: RetryBehaviour::None, ..MainDeviceConfig::default() });
+    let sd = SubDevice { configured_address: 0x1000, dc_receive_time: receive_time, propagation_delay: 7, ..Default::default() };
+    std::panic::catch_unwind(std::panic::AssertUnwindSafe(|| cassette::block_on(write_dc_parameters(&md, &sd, 0, now))))
+}
+
+#[test]
+fn d26_receive_time_with_the_top_bit_set() {
+    let now = 800_000_000_000_000_000u64; // ~ 25 years after the DC epoch
+    assert!(d26_run(1 << 63, now).is_ok(), "panicked for receive time 2^63 (negation of i64::MIN)");
+    assert!(d26_run((1 << 63) + 5, now).is_ok(), "panicked for receive time 2^63 + 5 (sum overflows i64)");
+    // ordinary values behave as before (no panic either way)
+    assert!(d26_run(123_456, now).is_ok());
+}
